@@ -477,6 +477,24 @@ func project(ev *event, c call, cs *fcase, ct contract, a fm, res result) {
 			}
 		}
 	}
+	// exact principal (inverse) square root of the prescribed-condition family; the bound is scaled with the
+	// condition number of the case: 1e-8 * sqrt(cond) relative to the norm of the exact root
+	if cs.RootK && (c.Routine == "msqrt" || c.Routine == "msqrtinv") && f[0] != nil {
+		ev.FacExA = true
+		want := cs.SqrtM
+		if c.Routine == "msqrtinv" {
+			want = cs.InvSqrtM
+		}
+		w := make(fm, len(want))
+		for i := range want {
+			w[i] = ratsF(want[i])
+		}
+		cond := cs.Cond.A.f() * cs.Cond.B.f()
+		tol := 1e-8 * math.Sqrt(cond) * (1 + frob(w)) * size
+		d := dist(f[0], w)
+		ev.FacEx = d <= tol
+		ev.Resid += fmt.Sprintf(" root=%.3g/%.3g", d, tol)
+	}
 	// exact factors of the integer-L family
 	if cs.CholK && (c.Routine == "cholesky" || c.Routine == "ldl" || (c.Routine == "ldl_forcepd" && cs.SuffPD)) && f[0] != nil {
 		ev.FacExA = true
